@@ -112,8 +112,10 @@ def _gen_prop(pid):
                 if q.returncode != 0:
                     raise RuntimeError("harness rec-twice failed: " + q.stderr[-2000:])
                 lines = [l.split("\t") for l in q.stdout.split("\n") if l]
-                diffs = [l for l in lines if l[0] != "summary"]
+                diffs = [l for l in lines if not l[0].startswith("summary")]
                 for l in lines:
+                    if l[0] == "summary-fresh":
+                        res.cov["distribution"]["recognizer inputs evaluated as the first call of a fresh process (%s)" % fn] = int(l[2])
                     if l[0] == "summary":
                         res.cov["evaluations"] += 2 * int(l[2])
                         res.cov["distribution"]["recognizer inputs evaluated twice (%s)" % fn] = int(l[2])
